@@ -30,16 +30,16 @@ def static_part(ctx):
         text_a = "import PsVerif.Generated.Guards\n" + "\n".join(f"#print axioms {n}" for n in names) + "\n"
         if not aud.exists() or aud.read_text() != text_a:
             aud.write_text(text_a)
-        ra = subprocess.run(["lake", "env", "lean", "Audit/GeneratedGuards.lean"], cwd=C.LEAN, capture_output=True, text=True, timeout=3600)
-        flat = (ra.stdout + ra.stderr).replace("\n ", " ").replace("\n", " ")
+        ra_rc, ra_out = C.cached_lean_audit("Audit/GeneratedGuards.lean".split("/", 1)[1])
+        flat = (ra_out).replace("\n ", " ").replace("\n", " ")
         axioms = {}
         for m in re.finditer(r"'PsVerif\.Gen\.guard_(\w+)' (?:depends on axioms: \[([^\]]*)\]|does not depend on any axioms)", flat):
             axioms[m.group(1)] = [a.strip() for a in (m.group(2) or "").split(",") if a.strip()]
         nonstd = {k: [a for a in v if a not in ("propext", "Classical.choice", "Quot.sound")] for k, v in axioms.items()}
         nonstd = {k: v for k, v in nonstd.items() if v}
         ctx.extra["generated_axioms"] = sorted({a for v in axioms.values() for a in v})
-        if ra.returncode != 0 or len(axioms) != len(names) or nonstd:
-            raise C.HarnessError(f"axiom audit of the generated guard theorems failed: {nonstd or (ra.stdout + ra.stderr)[-800:]}")
+        if ra_rc != 0 or len(axioms) != len(names) or nonstd:
+            raise C.HarnessError(f"axiom audit of the generated guard theorems failed: {nonstd or ra_out[-800:]}")
         return [], len(table), table
     # map error lines to theorems
     text = out.read_text().splitlines()
@@ -87,15 +87,15 @@ def effects_part(ctx):
         text_a = "import PsVerif.Generated.Effects\n" + "\n".join(f"#print axioms {n}" for n in names) + "\n"
         if not aud.exists() or aud.read_text() != text_a:
             aud.write_text(text_a)
-        ra = subprocess.run(["lake", "env", "lean", "Audit/GeneratedEffects.lean"], cwd=C.LEAN, capture_output=True, text=True, timeout=3600)
-        flat = (ra.stdout + ra.stderr).replace("\n ", " ").replace("\n", " ")
+        ra_rc, ra_out = C.cached_lean_audit("Audit/GeneratedEffects.lean".split("/", 1)[1])
+        flat = (ra_out).replace("\n ", " ").replace("\n", " ")
         axioms = {}
         for m in re.finditer(r"'PsVerif\.Gen\.((?:atomic|rejected)_\w+)' (?:depends on axioms: \[([^\]]*)\]|does not depend on any axioms)", flat):
             axioms[m.group(1)] = [a.strip() for a in (m.group(2) or "").split(",") if a.strip()]
         nonstd = {k: [a for a in v if a not in C.ALLOWED_AXIOMS] for k, v in axioms.items()}
         nonstd = {k: v for k, v in nonstd.items() if v}
-        if ra.returncode != 0 or len(axioms) != len(names) or nonstd:
-            raise C.HarnessError(f"axiom audit of the generated effect theorems failed: {nonstd or (ra.stdout + ra.stderr)[-800:]}")
+        if ra_rc != 0 or len(axioms) != len(names) or nonstd:
+            raise C.HarnessError(f"axiom audit of the generated effect theorems failed: {nonstd or ra_out[-800:]}")
         ctx.extra["generated_effect_theorems"] = sorted(axioms)
         return missing
     text = (C.LEAN / "PsVerif" / "Generated" / "Effects.lean").read_text().splitlines()
